@@ -21,6 +21,8 @@ var ungeneratable = map[string]sgen.M{
 	"missing-definition": {"$ref": "#/$defs/DoesNotExist"},
 	"missing-file":       {"$ref": "does-not-exist.json"},
 	"bad-pointer":        {"$ref": "#/properties/x"},
+	// a file behind a URL whose request fails at transport level (nothing listens on port 1 of the loopback interface)
+	"unreachable-url":    {"$ref": "http://127.0.0.1:1/defs.json#/$defs/Thing"},
 	"empty-enum":         {"enum": []any{}},
 	"non-primitive-enum": {"enum": []any{sgen.M{"a": 1}}},
 	// a typed integer enum must consist of numbers
@@ -80,7 +82,7 @@ func injections(bad sgen.M, kind string) []injection {
 			injection{"property-twin-of-definition", sgen.M{"$id": "urn:c18", "type": "object", "properties": sgen.M{"p": with(objT)}, "$defs": sgen.M{"SJsonP": sgen.DeepCopy(objT)}}},
 		)
 	}
-	if kind == "missing-definition" || kind == "missing-file" || kind == "bad-pointer" {
+	if kind == "missing-definition" || kind == "missing-file" || kind == "bad-pointer" || kind == "unreachable-url" {
 		out = append(out, injection{"allOf-branch-ref", root(sgen.M{"allOf": []any{b(), obj(sgen.M{"type": "string"})}}, nil)},
 			injection{"anyOf-branch-ref", root(sgen.M{"anyOf": []any{obj(sgen.M{"type": "string"}), b()}}, nil)})
 	}
@@ -205,6 +207,8 @@ func init() {
 			cliCase{"arguments", "no-arguments", nil, []string{"-p", "x"}, true, ""},
 			cliCase{"arguments", "no-package", map[string]string{"s.json": good}, []string{"s.json"}, true, ""},
 			cliCase{"arguments", "missing-file", nil, []string{"-p", "x", "nope.json"}, true, ""},
+			cliCase{"arguments", "unreachable-url-as-input", nil, []string{"-p", "x", "http://127.0.0.1:1/s.json"}, true, ""},
+			cliCase{"arguments", "unreachable-https-url-as-input", nil, []string{"-p", "x", "-o", "gen.go", "https://127.0.0.1:1/s.json"}, true, ""},
 			cliCase{"arguments", "directory-as-file", map[string]string{"d/keep": ""}, []string{"-p", "x", "d"}, true, ""},
 			cliCase{"arguments", "flag-without-equals", map[string]string{"s.json": good}, []string{"-p", "x", "--schema-package", "noequals", "s.json"}, true, ""},
 			cliCase{"arguments", "output-flag-without-equals", map[string]string{"s.json": good}, []string{"-p", "x", "--schema-output", "noequals", "s.json"}, true, ""},
